@@ -30,10 +30,13 @@ type otProg struct {
 	MaxSize int
 	FireAt  int // the FireAt-th timer that is armed expires at once
 	Ops     []otOp
+	Tail    int // operations of the adder after the Add that armed that timer (-1 = all that are left)
+	PauseUs int // the adder does something else for this long after that Add
 }
 
 func genOT(rt *rapid.T) otProg {
-	p := otProg{MaxSize: rapid.IntRange(1, 4).Draw(rt, "max"), FireAt: rapid.IntRange(1, 6).Draw(rt, "fireat")}
+	p := otProg{MaxSize: rapid.IntRange(1, 5).Draw(rt, "max"), FireAt: rapid.IntRange(1, 6).Draw(rt, "fireat"),
+		Tail: rapid.SampledFrom([]int{-1, -1, 1, 2, 3}).Draw(rt, "tail"), PauseUs: rapid.SampledFrom([]int{0, 0, 20, 80}).Draw(rt, "pause")}
 	n := rapid.IntRange(2, 30).Draw(rt, "n")
 	for i := 0; i < n; i++ {
 		p.Ops = append(p.Ops, otOp{Kind: rapid.SampledFrom([]string{"add", "add", "add", "flush"}).Draw(rt, "kind")})
@@ -41,25 +44,45 @@ func genOT(rt *rapid.T) otProg {
 	return p
 }
 
+// raceTimer is a clocks.Timer as the batcher sees the real one: a single slot
+// (Set replaces what is pending, Stop cancels what is pending at that moment).
+// Stop takes its time, as stopping a system timer may.
 type raceTimer struct {
 	mu      sync.Mutex
 	sets    int
 	fireAt  int
 	inSet   chan func()
 	release chan struct{}
+	pending bool // a time-out is armed and has neither expired nor been stopped
 }
 
 func (t *raceTimer) Set(d time.Duration, do func()) {
 	t.mu.Lock()
 	t.sets++
 	n := t.sets
+	t.pending = n != t.fireAt // (the fireAt-th expires at once)
 	t.mu.Unlock()
 	if n == t.fireAt {
 		t.inSet <- do
 		<-t.release
 	}
 }
-func (t *raceTimer) Stop() {}
+func (t *raceTimer) Stop() {
+	time.Sleep(30 * time.Microsecond)
+	t.mu.Lock()
+	t.pending = false
+	t.mu.Unlock()
+}
+func (t *raceTimer) setCount() int {
+	t.mu.Lock()
+	defer t.mu.Unlock()
+	return t.sets
+}
+func (t *raceTimer) armed() bool {
+	t.mu.Lock()
+	defer t.mu.Unlock()
+	return t.pending
+}
 
 func execOT(p otProg, c *hx.Case) error {
 	ctx, cancel := context.WithCancel(context.Background())
@@ -80,13 +103,30 @@ func execOT(p otProg, c *hx.Case) error {
 	go func() { // the adder
 		defer close(mDone)
 		next := 0
+		left := -1
 		for _, o := range p.Ops {
+			if left == 0 {
+				break
+			}
+			if left > 0 {
+				left--
+			}
 			switch o.Kind {
 			case "add":
 				mu.Lock()
 				adding = next
 				mu.Unlock()
+				setsBefore := tm.setCount()
 				b.Add(next)
+				if tm.fireAt > setsBefore && tm.fireAt <= tm.setCount() {
+					// this Add armed the time-out that expired at once
+					if p.Tail >= 0 {
+						left = p.Tail + 1
+					}
+					if p.PauseUs > 0 {
+						time.Sleep(time.Duration(p.PauseUs) * time.Microsecond)
+					}
+				}
 				next++
 				mu.Lock()
 				added = next
@@ -137,7 +177,14 @@ func execOT(p otProg, c *hx.Case) error {
 		return hx.Errf("the time-out armed for the batch that starts with item %d expired at once; by the time its flusher got hold of the batcher that batch had been flushed by the adder, yet the stale token handed out %v, a later batch", armedFor, late)
 	}
 	note(late)
-	note(b.Flush(batching.CurrentBatch))
+	// Items that wait in the current batch must have a time-out armed: nothing
+	// else will ever hand them out if no further item arrives.
+	stillArmed := tm.armed()
+	rest := b.Flush(batching.CurrentBatch)
+	if len(rest) > 0 && !stillArmed {
+		return hx.Errf("items %v wait in the current batch and no time-out is armed for it (it was stopped by the flush of the batch before, which ran beside the Add that started this one): without further input they are never handed out", rest)
+	}
+	note(rest)
 	sort.Slice(batches, func(i, j int) bool { return batches[i][0] < batches[j][0] })
 	want := 0
 	for _, bt := range batches {
@@ -164,5 +211,5 @@ func execOT(p otProg, c *hx.Case) error {
 }
 
 func TestPropBatcherOvertaken(t *testing.T) {
-	hx.Run(t, hx.Spec{Prop: "C20", Rule: "one EventBatcher (size 1..4) used by two goroutines as the source runner and the operator use it: an adder (2..30 Add / explicit Flush, size flushes when full) and a time-out flusher; the harness's timer lets the n-th time-out expire while the Add that armed it is still inside the batcher, so its flusher waits with its token while the adder flushes that batch itself and starts later ones; whatever the scheduler does, the flusher's Flush(token) hands out nothing or the batch it was armed for, and all batches together are the items added, each once, in order; non-trivial = the time-out fired and >=3 batches"}, genOT, execOT)
+	hx.Run(t, hx.Spec{Prop: "C20", Rule: "one EventBatcher (size 1..4) used by two goroutines as the source runner and the operator use it: an adder (2..30 Add / explicit Flush, size flushes when full) and a time-out flusher; the harness's timer lets the n-th time-out expire while the Add that armed it is still inside the batcher, so its flusher waits with its token while the adder flushes that batch itself and starts later ones; whatever the scheduler does, the flusher's Flush(token) hands out nothing or the batch it was armed for, and all batches together are the items added, each once, in order; the timer has one slot like the real one and Stop takes 30us, and items left in the current batch at the end must have a time-out armed; non-trivial = the time-out fired and >=3 batches"}, genOT, execOT)
 }
